@@ -2,19 +2,32 @@ CONFIG = dict(
     id="C20",
     engine="pure",
     technique="Lean 4 theorems (index invariant by induction over all add/move/remove histories, zoned query = brute-force scan via "
-              "monotonicity of the coordinate-to-zone function and |dx| <= dist <= r, removed ids never reported) over a hand-written exact-arithmetic "
+              "monotonicity of the coordinate-to-zone function and |dx| <= dist <= r, removed ids never reported; refinement of the model of SimpleSpace "
+              "(map + slice) to its upsert-map contract by an inductive invariant; zoned = SimpleSpace on the harness's feeding discipline; searcher with an "
+              "arbitrary Validate predicate) over a hand-written exact-arithmetic "
               "model + differential correspondence with the real ZoneSpace/SimpleSpace + the property predicate on the implementation's own results",
     level_text="Machine-checked proof in Lean 4, over exact arithmetic (fixed-point coordinates, unbounded integers), that after ANY history of "
                "AddEntity/UpdateEntityPos/RemoveEntity every live entity sits exactly once in the zone slice of its current position and nowhere else, that "
                "SearchCircleTargets reports a duplicate-free permutation of what a scan over all current positions reports for every query point and radius "
                "(inside, on zone borders, outside the map, negative/zero/huge radius), that removed ids are never reported, that no slice index is out of "
-               "bounds and UpdateEntityPos never reaches its panic. The model is tied to the Go code on every run: on the exact stream (quarter-unit "
-               "coordinates where float32 is exact) the model must reproduce ZoneSpace's and SimpleSpace's results verbatim; on the float stream (arbitrary "
-               "float32 incl. 1e19..3e38, tiny, NaN/Inf) the property predicate compares the zoned result with a brute-force scan that uses the same Pos.Distance.",
+               "bounds and UpdateEntityPos never reaches its panic; that the model of simple.go (map `entities` + slice `values`, AddEntity of a live id moves it, "
+               "RemoveEntity deletes from both) holds after any history exactly the upsert-map of that history and its query is literally the duplicate-free scan of it "
+               "(simplespace_search_exact, no hypothesis); that ZoneSpace reports a permutation of what the SimpleSpace IMPLEMENTATION reports when SimpleSpace is handed "
+               "the same operations minus the adds of ids that are live at that moment (zoned_eq_simplespace; the two implementations differ on such an add: "
+               "add_live_id_diverges); that with a searcher whose Validate is ANY predicate both spaces report exactly the accepted within-range ids, once "
+               "(search_with_validator, simplespace_with_validator), for a searcher object that starts empty (fresh_searcher_exact; a reused FindPlayers-like "
+               "object repeats its earlier ids: searcher_reuse_witness - the repository creates one per query); that the only Init call site (the factory) "
+               "satisfies Init's precondition (factory_geometry_ok). The model is tied to the Go code on every run: on the exact stream (quarter-unit "
+               "coordinates where float32 is exact) the model must reproduce verbatim the results of ZoneSpace, of a SimpleSpace handed only fresh ids and of a second "
+               "SimpleSpace handed every op (its own contract), with an accept-everything searcher and with a searcher that rejects an owner id, on ordinary cases "
+               "and on crowd cases (up to ~100 entities packed into one zone, then drained); on the float stream (arbitrary "
+               "float32 incl. 1e19..3e38, tiny, NaN/Inf) the property predicate compares the zoned result with a brute-force scan that uses the same Pos.Distance, and SimpleSpace's result must equal that scan exactly.",
     level_note="Partial with respect to floating point: the theorems are about exact arithmetic; float32 rounding, overflow of the float-to-int conversion "
                "(defect D12, repaired; witness theorem d12_witness) and non-finite inputs are covered by testing only (float stream), where a disagreement "
                "is excused only for an entity whose computed distance is within 2 ulp of the radius or whose position is non-finite, and queries with a "
-               "non-finite centre/radius are recorded but not judged. Trusted: Lean kernel, harness/driver line protocol and canonicalisation (sorted ids).",
+               "non-finite centre/radius are recorded but not judged (zoned result; SimpleSpace-vs-scan, duplicates, dead ids and rejected owners are judged there too). "
+               "searchers/findplayers.go itself (world lookups: dead units, non-avatars) is not driven: the searcher is modelled as an arbitrary Validate predicate plus an "
+               "append-only result list. Trusted: Lean kernel, harness/driver line protocol and canonicalisation (sorted ids).",
     lean_targets=["Cell2v.Props.C20", "modeld_c20"],
     driver="modeld_c20",
     driver_root="Cell2v.Driver.C20",
@@ -22,7 +35,9 @@ CONFIG = dict(
     required_theorems=["index_agrees_with_position", "search_eq_bruteforce", "search_reports_exactly_within", "removed_never_reported",
                        "absent_never_reported", "search_negative_radius", "history_never_panics", "positions_refine",
                        "zone_clamp_trunc_eq_floor_clamp", "zone_mono", "zone_index_in_bounds", "zone_fix_conservative",
-                       "init_geometry_ok", "d12_witness"],
+                       "init_geometry_ok", "d12_witness",
+                       "simplespace_search_exact", "zoned_eq_simplespace", "add_live_id_diverges", "search_with_validator",
+                       "simplespace_with_validator", "fresh_searcher_exact", "searcher_reuse_witness", "factory_geometry_ok"],
     harness_pkg="./c20",
     # `accept` = the differential check performed by the driver itself: for an exact-stream op the model's observation must EQUAL the
     # implementation's (anything else is rejected); float-stream ops are outside the model (exact arithmetic) and are accepted as they are —
@@ -35,21 +50,27 @@ CONFIG = dict(
                      dict(name="exact", env={"VERIF_N": "600000", "VERIF_STREAM": "x"}, seed_offset=1000, timeout=1500),
                      dict(name="float", env={"VERIF_N": "1500000", "VERIF_STREAM": "f"}, seed_offset=2000, timeout=1500)],
     },
-    trivial=r"^(ok|bad-op|bad-geo|z= b=|z= b= e=[0-9,]* nf=[01])?$",
-    rule="op lines generated from one PRNG (VERIF_SEED), cases of 20-70 ops after a reset; exact stream: 10 geometries (factory +-30/5, the repo test's, "
+    trivial=r"^(ok|bad-op|bad-geo|z= b= s=|z= b= s= e=[0-9,]* nf=[01])?$",
+    rule="op lines generated from one PRNG (VERIF_SEED), cases of 20-70 ops after a reset (1 case in 12: a crowd case of 60-400 ops, in either stream: 17-106 "
+         "entities packed into one zone, a few elsewhere, queries while it fills, early entities moving, then drained by removals and moves out of the zone down to "
+         "0-8, then re-adds/moves/queries; the slices behind a zone and behind SimpleSpace grow through several capacities and empty again); a quarter of the queries "
+         "use a searcher that rejects an owner id; exact stream: 11 geometries (the space made by factory.CreateZoneSpace() itself, +-30/5, the repo test's, "
          "0.25-unit zones, a single zone, zone size 3 and 7 with non-multiple extents, zones larger than the map, a thin strip), ids from a small pool so that "
          "re-adds, moves and removals hit live ids, coordinates grid-aligned / one quarter off a border / on the map bounds / outside / extreme / random, "
-         "moves within and across zones, radii 0, negative, huge, at / just below / just above the exact distance to a live entity (3-4-5 style offsets), "
+         "moves within and across zones, minimal steps (1-2 quarter units) over a border or corner of the entity's zone each followed by a query whose circle holds the "
+         "entity but stays beyond that border, radii 0, negative, huge, at / just below / just above the exact distance to a live entity (3-4-5 style offsets), "
          "zone-scale and random; float stream: 7 geometries, coordinates on zone borders +-2 ulp, quarter grid, outside, huge (1e10..3.4e38, both signs), tiny "
          "and denormal, random bit patterns, (in 1/8 of the cases) NaN/Inf, radii 0, negative, huge (D12 shape: centre near the map), tiny, the computed "
          "distance to a live entity +-3 ulp with the entity on the rim along an axis; non-trivial = a query with a non-empty result",
     trusted_base=[
         "Lean 4.33.0 kernel; axioms of every property theorem audited on each run (allowed: propext, Classical.choice, Quot.sound)",
-        "hand-written model lean/Cell2v/Model/Space.lean (exact arithmetic, quarter units) tied to the Go code by the exact stream of this check "
-        "(harness/c20 + modeld_c20 accept: model observation must equal the implementation's)",
+        "hand-written model lean/Cell2v/Model/Space.lean (ZoneSpace + Zone, SimpleSpace, searcher with a Validate predicate; exact arithmetic, quarter units) "
+        "tied to the Go code by the exact stream of this check (harness/c20 + modeld_c20 accept: the three model observations z= b= s= must equal the implementation's)",
         "float32 arithmetic, float-to-int conversion and non-finite values are NOT modelled: tested on the float stream against a brute-force scan "
         "in the harness that uses the same vector.Vector3.Distance",
-        "harness canonicalisation (ids sorted, duplicates kept; panics caught by recover and mapped to 'panic'); accept-everything ISearcher",
+        "harness canonicalisation (ids sorted, duplicates kept; panics caught by recover and mapped to 'panic'); the harness's ISearcher "
+        "(accepts everything, or everything but one owner id) stands for searchers.FindPlayers / FindNearestEnemy, whose world lookups are not driven",
+        "define.MaxWidth = 30 / zone size 5 of the factory are tied behaviourally only (reset kind=x default: model constant Geo.factory vs factory.CreateZoneSpace())",
     ],
     assumptions=[
         "exact stream: all coordinates, radii and geometry are multiples of 1/4 with |coordinate| <= 256, |radius| <= 2048, 0.25 <= zone size <= 64: "
@@ -58,9 +79,15 @@ CONFIG = dict(
         "S != r^2, so `dist > r` decides exactly S > r^2",
         "float stream: a zoned-vs-scan disagreement is excused for entities whose computed distance is within 2 ulp of the radius "
         "(the statement's 'up to floating-point rounding for entities exactly at the radius') and for entities at a non-finite position; "
-        "queries with a NaN/Inf centre or radius are recorded (histogram f:q:non-finite-query*) and not judged",
-        "ZoneSpace.AddEntity ignores a live id while SimpleSpace.AddEntity moves it; the reference contract is the zoned one "
-        "(the harness hands SimpleSpace only fresh ids)",
-        "Init is called with begin <= end and a positive zone size (init_geometry_ok); other geometries are rejected by the harness before Init",
+        "queries with a NaN/Inf centre or radius are recorded (histogram f:q:non-finite-query*) and not judged; the oracle shares vector.Vector3.Distance with "
+        "the code: beyond |dx| ~ 1.8e19 the float32 product dx*dx is +Inf, so an entity at distance 1e20 is reported by NEITHER implementation for radius 1e21 "
+        "(reproduced: fadd at (1e20,0,0), fq at the origin r=1e21 -> z= b= s= all empty); such queries are counted "
+        "(histogram f:q:float32-distance-overflow-hides-an-in-range-entity(recorded)) and not judged",
+        "ZoneSpace.AddEntity ignores a live id while SimpleSpace.AddEntity moves it (proved: add_live_id_diverges); the property's reference contract is the "
+        "zoned one: the SimpleSpace compared with the zoned index (b=) is handed only fresh ids - modelled as dropLiveAdds and proved equivalent "
+        "(zoned_eq_simplespace) - while a second SimpleSpace (s=) receives every op and is checked against its own upsert contract",
+        "Init is called with begin <= end and a positive zone size (init_geometry_ok); true of the only call site in the repository (factory_geometry_ok, "
+        "driven through factory.CreateZoneSpace()); other geometries (make with a negative length / zero zones: panics) are rejected by the harness before Init",
+        "searcher objects are created per query (space/utils: NewFindPlayers / NewFindNearestEnemy per call); a reused FindPlayers keeps its earlier results (searcher_reuse_witness)",
     ],
 )
